@@ -6,6 +6,7 @@ from units import BLOCK
 from props import c14_trees as T
 
 ID = 'C14'
+ZERO_LABELS = True      # a share of the cases is asked with candidates numbered from 0 (harness/common.py LABEL_MODE)
 LEVEL = 'proof'
 B = BLOCK['C14']
 TIE = {'core.PreConverted / PostConverted / FixedSeatCount / Conditioned / ByConstituency / PreApportioned / RemovedApportionment / '
